@@ -65,6 +65,7 @@ fn build_builtin_env() -> GlobalTypeEnv {
             funcs: IndexMap::new(),
             extern_funcs: IndexMap::new(),
         },
+        fn_bounds: IndexMap::new(),
     };
 
     let (hir, hir_table, mut hir_diagnostics) = hir::lower_to_hir(ast);
